@@ -25,6 +25,7 @@ import dns.rdata
 import dns.rdataclass
 import dns.rdatatype
 import dns.resolver
+import dns.reversename
 import dns.rrset
 import dns.tsig
 
@@ -374,8 +375,11 @@ def get_loop():
 
 
 def seconds(ms):
-    """milliseconds -> the float (or int) number of seconds handed to the library"""
-    return ms / 1000.0 if ms % 1000 else ms // 1000
+    """milliseconds -> the number of seconds handed to the library: an int, or an exact Fraction.  With the clock exact
+    (harness/vclock.py) every budget the library derives (`lifetime - duration`, the lifetime `resolve_name` hands to its
+    lookups) stays an exact number of milliseconds; binary floats would leave residues below the clock's resolution."""
+    from fractions import Fraction
+    return Fraction(ms, 1000) if ms % 1000 else ms // 1000
 
 
 def configure(res, cfg, world):
@@ -493,6 +497,8 @@ def run_impl(case, mode, gen=None):
         dns.nameserver.Do53Nameserver.query = _do53_query
         dns.nameserver.Do53Nameserver.async_query = _do53_async_query
     try:
+        if case["kind"] == "rname":
+            return _run_name(case, mode, clock, world, loop if mode == "async" else None)
         return _run_impl(case, mode, clock, world, loop if mode == "async" else None)
     finally:
         dns.nameserver.Do53Nameserver.query, dns.nameserver.Do53Nameserver.async_query = saved_do53
@@ -549,6 +555,123 @@ def _run_impl(case, mode, clock, world, loop):
     return " || ".join(lines), obs, world.tokens
 
 
+FAMILIES = {"unspec": socket.AF_UNSPEC, "inet": socket.AF_INET, "inet6": socket.AF_INET6}
+
+
+def _host_result(fn):
+    """(canonical line, structure) of a resolve_name call"""
+    try:
+        h = fn()
+    except BaseException as e:
+        def thrower(e=e):
+            raise e
+        return result_of(thrower)
+
+    if isinstance(h, dns.name.Name):
+        return "name:" + enc_labels(h.labels), {"cls": "Name", "name": hexl(h.labels)}
+    if isinstance(h, dns.resolver.Answer):
+        return result_of(lambda: h)
+
+    def one(ty):
+        a = h.get(ty)
+        if a is None:
+            return "-", None
+        l, st = result_of(lambda: a)
+        return l, st
+    l6, s6 = one(dns.rdatatype.AAAA)
+    l4, s4 = one(dns.rdatatype.A)
+    return f"host:{l6}|{l4}", {"cls": "Host", "v6": s6, "v4": s4, "keys": [int(k) for k in h.keys()]}
+
+
+def _run_name(case, mode, clock, world, loop):
+    """`resolve_name` on the implementation; every `resolve` call it makes is recorded as a resolution of its own"""
+    cfg, rq = case["cfg"], case["nreq"]
+    calls = []
+    with patched(clock, dns.resolver, dns.asyncresolver):
+        res = dns.resolver.Resolver(configure=False) if mode == "sync" else dns.asyncresolver.Resolver(configure=False)
+        configure(res, cfg, world)
+        backend = RecBackend(world) if mode == "async" else None
+        orig = type(res).resolve
+
+        def note(args, kw, ev0, start, before, line, r):
+            evs = world.events[ev0:]
+            end = clock.ms
+            calls.append({"events": evs, "result": r, "line": line, "start": start, "end": end, "before": before,
+                          "after": cache_view(res, end), "args": args, "kw": {k: v for k, v in kw.items() if k != "backend"}})
+
+        if mode == "sync":
+            def wrapper(*args, **kw):
+                ev0, start, before = len(world.events), clock.ms, cache_view(res, clock.ms)
+                box = {}
+
+                def call():
+                    try:
+                        box["v"] = orig(res, *args, **kw)
+                    except BaseException as e:
+                        box["e"] = e
+                        raise
+                    return box["v"]
+                line, r = result_of(call)
+                note(args, kw, ev0, start, before, line, r)
+                if "e" in box:
+                    raise box["e"]
+                return box["v"]
+        else:
+            async def wrapper(*args, **kw):
+                ev0, start, before = len(world.events), clock.ms, cache_view(res, clock.ms)
+                try:
+                    v = await orig(res, *args, **kw)
+                except BaseException as e:
+                    def thrower(e=e):
+                        raise e
+                    line, r = result_of(thrower)
+                    note(args, kw, ev0, start, before, line, r)
+                    raise
+                line, r = result_of(lambda: v)
+                note(args, kw, ev0, start, before, line, r)
+                return v
+        res.resolve = wrapper
+        clock.advance(rq["gap"])
+        world.events = []
+        start = clock.ms
+        qname = dns.name.Name(unhexl(rq["qname"]))
+        kw = dict(tcp=bool(rq["tcp"]), raise_on_no_answer=bool(rq["rona"]), search=None if rq["search"] is None else bool(rq["search"]))
+        if rq["life"] is not None:
+            kw["lifetime"] = seconds(rq["life"])
+        if rq.get("src") is not None:
+            kw["source"] = rq["src"]
+        if rq.get("text"):
+            qname = qname.to_text()
+        entry = case.get("entry", "resolve_name")
+        if entry == "resolve_name":
+            fam = FAMILIES[rq["family"]]
+            if mode == "sync":
+                line, r = _host_result(lambda: res.resolve_name(qname, fam, **kw))
+            else:
+                line, r = _host_result(lambda: loop.run_until_complete(res.resolve_name(qname, fam, backend=backend, **kw)))
+        elif entry == "canonical_name":
+            if mode == "sync":
+                line, r = _host_result(lambda: res.canonical_name(qname))
+            else:
+                line, r = _host_result(lambda: loop.run_until_complete(res.canonical_name(qname)))
+        elif entry == "resolve_address":
+            kw.pop("search", None)
+            if mode == "sync":
+                line, r = _host_result(lambda: res.resolve_address(rq["addr"], **kw))
+            else:
+                line, r = _host_result(lambda: loop.run_until_complete(res.resolve_address(rq["addr"], backend=backend, **kw)))
+        else:  # zone_for_name: the synchronous function alone takes a lifetime
+            line, r = _host_result(lambda: dns.resolver.zone_for_name(qname, IN, bool(rq["tcp"]), res, kw.get("lifetime")))
+        end = clock.ms
+        after = cache_view(res, end)
+        evs = world.events
+        for e in evs:
+            e.setdefault("tag", "?")
+        full = " ".join(show_event(e) for e in evs) + " => " + line + f" end={end} cache={show_cache(after)}"
+        ob = {"events": evs, "result": r, "line": line, "start": start, "end": end, "after": after, "calls": calls}
+    return full, [ob], world.tokens
+
+
 VARIANT = "shipped"  # which back-off-sleep variant of the model the code implements; learnt by probe_variant()
 
 WITNESS_OVERRUN = {"kind": "run", "profile": "witness",
@@ -574,7 +697,12 @@ def op_line(case, tokens=None):
             "cfg:" + ":".join([enc_list(f"{s}.{b01(a)}" for s, a in cfg["servers"]), enc_list(encn(s) for s in cfg["search"]),
                                "none" if cfg["domain"] is None else encn(cfg["domain"]), opt(cfg["ndots"]), b01(cfg["usd"]),
                                str(cfg["timeout"]), str(cfg["lifetime"]), b01(cfg["rsf"]), b01(cfg["cache"])])]
-    for rq in case["reqs"]:
+    if case["kind"] == "rname":
+        rq = case["nreq"]
+        toks[0] = "c16.rname"
+        toks.append("nreq:" + ":".join([encn(rq["qname"]), rq["family"], b01(rq["tcp"]), b01(rq["rona"]),
+                                        "none" if rq["search"] is None else b01(rq["search"]), opt(rq["life"]), str(rq["gap"])]))
+    for rq in case.get("reqs", []):
         toks.append("req:" + ":".join([encn(rq["qname"]), str(rq["ty"]), str(rq["cls"]), b01(rq["tcp"]), b01(rq["rona"]),
                                        "none" if rq["search"] is None else b01(rq["search"]), opt(rq["life"]), str(rq["gap"])]))
     for i, st in enumerate(case["script"]):
@@ -986,6 +1114,138 @@ def oracle(ctx, case, obs, rep):
             fail("cache/off", where)
 
 
+def oracle_entry(ctx, case, ob, rep):
+    """`canonical_name`, `resolve_address`, `zone_for_name`: the lookups they make and the deadline they share"""
+    cfg, rq, entry = case["cfg"], case["nreq"], case["entry"]
+    start, end, calls, res = ob["start"], ob["end"], ob["calls"], ob["result"]
+    where = f"{entry}: {ob['line'][:200]}"
+
+    def fail(clause, what):
+        ctx.fail(f"C16/{entry}/{clause}", what, rep)
+
+    ctx.count(f"entry.{entry}.{res['cls']}")
+    if res["cls"] == "FOREIGN" and not res["exc"].startswith(("NoRootSOA", "NotAbsolute")):
+        fail("foreign-exception:" + res["exc"].split("(")[0], f"{where}: {res['exc']}")
+        return
+
+    def labels_of(x):
+        return list(x.labels) if isinstance(x, dns.name.Name) else list(dns.name.from_text(x, None).labels)
+    reqs = []
+    for c in calls:
+        kw = c["kw"]
+        a = list(c["args"])
+        ty = a[1] if len(a) > 1 else kw.get("rdtype", A)
+        rc = a[2] if len(a) > 2 else kw.get("rdclass", IN)
+        tcp = a[3] if len(a) > 3 else kw.get("tcp", False)
+        reqs.append({"qname": hexl(labels_of(a[0])), "ty": int(dns.rdatatype.RdataType.make(ty)), "cls": int(dns.rdataclass.RdataClass.make(rc)),
+                     "tcp": int(bool(tcp)), "rona": int(bool(kw.get("raise_on_no_answer", True))),
+                     "search": None if kw.get("search") is None else int(bool(kw["search"])),
+                     "life": None if kw.get("lifetime") is None else to_ms(kw["lifetime"]), "gap": 0, "src": kw.get("source"),
+                     "sport": kw.get("source_port", 0)})
+    if entry == "canonical_name":
+        if len(calls) != 1 or reqs[0]["ty"] != A or reqs[0]["rona"] != 0 or lower_labels(unhexl(reqs[0]["qname"])) != lower_labels(unhexl(rq["qname"])):
+            fail("lookups", f"{where}: expected one lookup of type A for the name with raise_on_no_answer off, got {reqs}")
+        elif calls[0]["result"]["cls"] == "Answer" and (res["cls"] != "Name" or lower_labels(unhexl(res["name"])) != lower_labels(unhexl(calls[0]["result"]["canon"]))):
+            fail("composition", f"{where}: the lookup's canonical name is {calls[0]['result']['canon']}")
+        elif calls[0]["result"]["cls"] not in ("Answer", "NXDOMAIN") and res["cls"] != calls[0]["result"]["cls"]:
+            fail("composition", f"{where}: the lookup ended in {calls[0]['result']['cls']}")
+    if entry == "resolve_address":
+        want = list(dns.reversename.from_address(rq["addr"]).labels)
+        if len(calls) != 1 or reqs[0]["ty"] != 12 or reqs[0]["cls"] != IN or lower_labels(unhexl(reqs[0]["qname"])) != lower_labels(want) \
+                or reqs[0]["life"] != rq["life"] or reqs[0]["tcp"] != rq["tcp"] or reqs[0]["rona"] != rq["rona"]:
+            fail("lookups", f"{where}: expected one PTR lookup for the reverse name with the caller's options, got {reqs}")
+        elif res["cls"] != calls[0]["result"]["cls"]:
+            fail("composition", f"{where}: the lookup ended in {calls[0]['result']['cls']}")
+    if entry == "zone_for_name" and rq["life"] is not None:
+        life = rq["life"]
+        if end - start > life:
+            fail("lifetime-overrun", f"{where}: ended {end - start} ms after its start, lifetime {life} ms")
+        for i, c in enumerate(calls):
+            left = max(life - (c["start"] - start), 0)
+            if reqs[i]["life"] is None or reqs[i]["life"] > left:
+                fail("sub-lookup-budget", f"{where}: lookup {i} at +{c['start'] - start} ms got lifetime {reqs[i]['life']} ms, {left} ms were left")
+                break
+            if reqs[i]["ty"] != SOA:
+                fail("lookups", f"{where}: lookup {i} is of type {reqs[i]['ty']}")
+                break
+        for e in ob["events"]:
+            if e["ev"] == "q" and (e["t0"] - start >= life or e["to"] > life - (e["t0"] - start)):
+                fail("query-timeout-budget", f"{where}: query at +{e['t0'] - start} ms with timeout {e['to']} ms, lifetime {life}")
+                break
+    oracle(ctx, {"cfg": cfg, "reqs": reqs}, calls, rep)
+
+
+def oracle_name(ctx, case, ob, rep):
+    """`resolve_name`: the lookups it is made of share one deadline, and its result is composed from theirs"""
+    cfg, rq = case["cfg"], case["nreq"]
+    life = cfg["lifetime"] if rq["life"] is None else rq["life"]
+    start, end, calls, res = ob["start"], ob["end"], ob["calls"], ob["result"]
+    where = f"resolve_name({rq['family']}): {ob['line'][:200]}"
+
+    def fail(clause, what):
+        ctx.fail(f"C16/resolve_name/{clause}", what, rep)
+
+    ctx.count("rname." + rq["family"] + "." + res["cls"])
+    if res["cls"] == "FOREIGN":
+        fail("foreign-exception:" + res["exc"].split("(")[0], f"{where}: {res['exc']}")
+        return
+    # ---- one deadline for the whole call
+    if end - start > life:
+        fail("lifetime-overrun", f"{where}: ended {end - start} ms after its start, lifetime {life} ms")
+    for e in ob["events"]:
+        if e["ev"] != "q":
+            continue
+        el = e["t0"] - start
+        if el >= life or e["to"] > life - el or e["to"] > cfg["timeout"]:
+            fail("query-timeout-budget", f"{where}: query (type {e['qty']}) at +{el} ms with timeout {e['to']} ms; lifetime {life}, per-query timeout {cfg['timeout']}")
+            break
+    for i, c in enumerate(calls):
+        sub = c["kw"].get("lifetime")
+        left = life - (c["start"] - start)
+        if rq["family"] == "unspec" and (sub is None or to_ms(sub) > max(left, 0)):
+            fail("sub-lookup-budget", f"{where}: lookup {i} started at +{c['start'] - start} ms with lifetime {sub} s; {left} ms of the caller's {life} ms were left")
+            break
+    # ---- which lookups, with which arguments
+    def labels_of(x):
+        return list(x.labels) if isinstance(x, dns.name.Name) else list(dns.name.from_text(x, None).labels)
+    want_types = {"unspec": [AAAA, A], "inet": [A], "inet6": [AAAA]}[rq["family"]]
+    got_types = [int(dns.rdatatype.RdataType.make(c["args"][1] if len(c["args"]) > 1 else c["kw"].get("rdtype", A))) for c in calls]
+    if got_types != want_types[: len(got_types)] or (calls and all(c["result"]["cls"] == "Answer" for c in calls) and len(calls) != len(want_types)):
+        fail("lookups", f"{where}: lookups of types {got_types}, expected {want_types}")
+        return
+    if calls and lower_labels(labels_of(calls[0]["args"][0])) != lower_labels(unhexl(rq["qname"])):
+        fail("lookups", f"{where}: first lookup not for the name given")
+    if len(calls) == 2 and calls[0]["result"]["cls"] == "Answer" and \
+            lower_labels(labels_of(calls[1]["args"][0])) != lower_labels(unhexl(calls[0]["result"]["qname"])):
+        fail("lookups", f"{where}: the A lookup is not for the name the AAAA lookup settled on")
+    # ---- the result is composed from the lookups' results
+    raised = [c["result"]["cls"] for c in calls if c["result"]["cls"] != "Answer"]
+    if raised:
+        exp = raised[0]
+    elif len(calls) < len(want_types):
+        exp = "LifetimeTimeout"  # the budget computation itself gave up
+    else:
+        add_empty = not rq["rona"] if rq["family"] == "unspec" else True
+        keep = [t for t, c in zip(want_types, calls) if add_empty or c["result"]["hasrr"]]
+        exp = "Host" if keep else "NoAnswer"
+        if exp == "Host" and sorted(res.get("keys", [])) != sorted(keep):
+            fail("composition", f"{where}: HostAnswers has entries {res.get('keys')}, expected {keep}")
+    if res["cls"] != exp:
+        fail("composition", f"{where}: expected {exp} from lookups {[c['result']['cls'] for c in calls]}")
+    if exp == "LifetimeTimeout" and not raised and end - start < life:
+        fail("premature-timeout", f"{where}: gave up at +{end - start} ms, lifetime {life}")
+    # ---- every lookup is a resolution in its own right
+    reqs = []
+    for c in calls:
+        kw = c["kw"]
+        reqs.append({"qname": hexl(labels_of(c["args"][0])), "ty": int(dns.rdatatype.RdataType.make(c["args"][1] if len(c["args"]) > 1 else kw.get("rdtype", A))),
+                     "cls": int(dns.rdataclass.RdataClass.make(kw.get("rdclass", IN))), "tcp": int(bool(kw.get("tcp", False))),
+                     "rona": int(bool(kw.get("raise_on_no_answer", True))), "search": None if kw.get("search") is None else int(bool(kw["search"])),
+                     "life": None if kw.get("lifetime") is None else to_ms(kw["lifetime"]), "gap": 0, "src": kw.get("source"),
+                     "sport": kw.get("source_port", 0)})
+    oracle(ctx, {"cfg": cfg, "reqs": reqs}, calls, rep)
+
+
 # ------------------------------------------------------------------------------------------------
 # evaluation of one case
 # ------------------------------------------------------------------------------------------------
@@ -1013,6 +1273,28 @@ def eval_case(ctx: Ctx, c: dict, gen=None):
         ctx.count("run.resolutions", len(obs))
         ctx.count("run.queries", sum(1 for o in obs for e in o["events"] if e["ev"] == "q"))
         return sum(len(o["events"]) for o in obs) > 0 or any(o["result"]["cls"] in ("Answer", "NoAnswer", "NXDOMAIN") for o in obs)
+    if k == "rname" and c.get("entry", "resolve_name") != "resolve_name":
+        line, obs, tokens = run_impl(c, "sync", gen)
+        oracle_entry(ctx, c, obs[0], rep)
+        if c["entry"] != "zone_for_name":
+            aline, aobs, _ = run_impl(c, "async", None)
+            if aline != line:
+                ctx.fail("C16/async/decision-differs", f"{c['entry']} sync: {line}  async: {aline}", rep)
+        return True
+    if k == "rname":
+        line, obs, tokens = run_impl(c, "sync", gen)
+        ctx.corr(op_line(c, tokens), line, c)
+        oracle_name(ctx, c, obs[0], rep)
+        aline, aobs, _ = run_impl(c, "async", None)
+        if aline != line:
+            ctx.fail("C16/async/decision-differs", f"resolve_name sync: {line}  async: {aline}", rep)
+        else:
+            a1 = [aux_of(o) + json.dumps(sorted(o["kw"].items()), default=str) for o in obs[0]["calls"]]
+            a2 = [aux_of(o) + json.dumps(sorted(o["kw"].items()), default=str) for o in aobs[0]["calls"]]
+            if a1 != a2:
+                ctx.fail("C16/async/transport-or-payload-differs", f"resolve_name lookups: sync {str(a1)[:300]}  async {str(a2)[:300]}", rep)
+        ctx.count("rname.queries", sum(1 for e in obs[0]["events"] if e["ev"] == "q"))
+        return True
     if k == "timeout":
         # `_compute_timeout` on its own, on a clock that may also have run backwards since `start`
         clock = VClock(c["now"])
@@ -1341,6 +1623,59 @@ def gen_chain_case(rng):
     return {"kind": "chain", "qname": hexl(absq), "cls": cls, "ty": ty, "resp": spec}
 
 
+def gen_rname(ctx, rng):
+    """a `resolve_name` call; often the first lookup uses up a good part of the lifetime"""
+    cfg = gen_cfg(rng)
+    if not cfg["servers"]:
+        cfg["servers"] = [[0, 0]]
+    fam = rng.choice(["unspec", "unspec", "unspec", "inet", "inet6"])
+    rq = {"qname": hexl(gen_qname(rng)), "family": fam, "tcp": 1 if rng.chance(1, 8) else 0, "rona": 0 if rng.chance(1, 3) else 1,
+          "search": rng.choice([None, 0, 1, 1]), "life": rng.choice([None, None] + LIFETIMES), "gap": rng.choice([0, 0, 1000])}
+    if rng.chance(1, 5):
+        rq["text"] = 1
+    if rng.chance(1, 6):
+        rq["src"] = "192.0.2.7"
+    life = cfg["lifetime"] if rq["life"] is None else rq["life"]
+    if rng.chance(1, 2):
+        cfg["timeout"] = max(cfg["timeout"], rng.choice([life, 2 * life, 4000]))
+    profile = rng.choice(["good", "good", "mixed", "stalling", "nx", "slowfirst", "slowfirst", "slowfirst"])
+    case = {"kind": "rname", "cfg": cfg, "nreq": rq, "script": [], "profile": profile}
+    state = {"n": 0}
+
+    def gen(world, ns, request, timeout_ms, tcp):
+        q = request.question[0]
+        state["n"] += 1
+        if profile == "slowfirst":
+            if state["n"] == 1:
+                # the first reply takes a good part of the lifetime
+                d = rng.choice([life // 2, (3 * life) // 4, max(life - 1, 0), life // 4])
+                spec = {"k": "r", "d": d, "rcode": NOERROR, "qr": 1, "qc": 1, "an": [], "au": []}
+                spec["an"], spec["au"] = gen_answer_section(rng, list(q.name.labels), int(q.rdclass), int(q.rdtype), rng.choice(["nodata", "answer", "chain"]))
+                return spec
+            return gen_outcome(rng, rng.choice(["stalling", "stalling", "good"]), cfg, list(q.name.labels), int(q.rdclass), int(q.rdtype), timeout_ms)
+        return gen_outcome(rng, profile, cfg, list(q.name.labels), int(q.rdclass), int(q.rdtype), timeout_ms)
+
+    return case, gen
+
+
+def gen_entry(ctx, rng):
+    """the other composite entry points: canonical_name, resolve_address (one lookup each), zone_for_name (a lookup per
+    ancestor under one lifetime, synchronous only)"""
+    c, gen = gen_rname(ctx, rng)
+    c["entry"] = rng.choice(["canonical_name", "resolve_address", "zone_for_name", "zone_for_name"])
+    rq = c["nreq"]
+    rq.pop("text", None)
+    rq.pop("src", None)
+    if c["entry"] == "resolve_address":
+        rq["addr"] = rng.choice(["10.1.2.3", "2001:db8::1", "192.0.2.255"])
+    if c["entry"] == "zone_for_name":
+        rq["qname"] = hexl(rng.choice([[b"a", b"example", b""], [b"www", b"sub", b"example", b""], [b"x", b""], [b""]]))
+        c["cfg"]["cache"] = rng.choice([0, 1])
+    if c["profile"] == "slowfirst":
+        c["profile"] = "nx"
+    return c, gen
+
+
 def gen_timeout_case(rng):
     life_res = rng.choice(LIFETIMES + [0])
     life_arg = rng.choice([None, None] + LIFETIMES + [0])
@@ -1366,6 +1701,14 @@ def generate(ctx: Ctx, scale: float, rng):
         c = gen_qnames_case(rng)
         ctx.case(("qnames", case_key(c)), sample=c)
         eval_case(ctx, c)
+    for _ in range(n(1200)):
+        c, gen = gen_rname(ctx, rng)
+        eval_case(ctx, c, gen)
+        ctx.case(("rname", case_key(c)), sample=c if len(c["script"]) < 6 else None)
+    for _ in range(n(400)):
+        c, gen = gen_entry(ctx, rng)
+        eval_case(ctx, c, gen)
+        ctx.case(("entry", case_key(c)), sample=c if len(c["script"]) < 6 else None)
     for _ in range(n(600)):
         c = gen_timeout_case(rng)
         ctx.case(("timeout", case_key(c)), sample=c)
